@@ -20,6 +20,30 @@ def res_lines(f):
         return '(exc %s)' % type(e).__name__
 
 
+_COLLISIONS = None
+
+
+def collision_pairs():
+    global _COLLISIONS
+    if _COLLISIONS is None:
+        import zlib
+        out = []
+        for fn in (zlib.crc32, zlib.adler32):
+            seen, found = {}, 0
+            for i in range(400000):
+                line = b'+ item %08d' % (i * 7919 % 100000000)
+                h = fn(line)
+                if h in seen and seen[h] != line:
+                    out.append((seen[h], line))
+                    found += 1
+                    if found >= 3:
+                        break
+                seen[h] = line
+        out += [(b'-same start and end, 1 middle', b'-same start and end, 2 middle'), (b'ab', b'ba'), (b'+x\x00y', b'+x\x01y')]
+        _COLLISIONS = out
+    return _COLLISIONS
+
+
 class Split(Family):
     name = 'split'
     rule = ('exhaustive byte strings over {CR,LF,NUL,space,a} up to a bounded length x 10 newline patterns x both modes, '
@@ -49,6 +73,13 @@ class Split(Family):
                 else:
                     parts.append(bytes(rng.choice(b'\r\n\x00 ab\xff') for _ in range(rng.randint(0, 5))))
             yield dict(kind='random', data=hx(b''.join(parts)), nl=hx(nl), keep=rng.random() < 0.5)
+        # different lines of equal length that the standard checksums / hashes cannot tell apart (zlib.crc32, zlib.adler32,
+        # the first and last bytes, the length): lines are told apart by their bytes only
+        for a, b in collision_pairs():
+            for nl in (NEWLINES[0], NEWLINES[1]):
+                for k in (True, False):
+                    yield dict(kind='collide', data=hx(a + nl + b"x" + nl + b + nl + a + nl + b), nl=hx(nl), keep=k)
+                    yield dict(kind='collide', data=hx(b + nl + a + nl), nl=hx(nl), keep=k)
         # size boundaries: the newline at / across offsets around powers of two, many lines, very long lines
         for nl in (NEWLINES[0], NEWLINES[1], NEWLINES[4] if len(NEWLINES) > 4 else NEWLINES[-1]):
             for n in (255, 256, 1023, 1024, 4095, 4096, 8191, 8192, 8193, 65535, 65536, 65537):
@@ -279,7 +310,16 @@ class Spelling(Family):
                 ['write_preamble', sl.S(text + 'x'), None, {'i': 2}, sl.S('dos'), None],
                 ['new_file', None],
                 ['write_meta', {'d': {'k': 'v'}}, None, 'omitted'],
-                ['write_diff', sl.Bv(('-a\n+b\n').encode(s)), None, sl.S(s), None]]
+                ['write_diff', sl.Bv(('-a\n+b\n').encode(s)), None, sl.S(s), None],
+                # a sibling change that declares nothing (the main encoding is back in force), then one under the spelling
+                # again: the newline bytes are those of the codec in force for each section, whatever was written before
+                ['new_change', None],
+                ['write_preamble', sl.S(text), None, {'i': 2}, None, None],
+                ['write_meta', {'d': {'k': 'w'}}, None, 'omitted'],
+                ['new_file', sl.S(s)],
+                ['write_meta', {'d': {'k': 'x'}}, None, 'omitted'],
+                ['new_file', None],
+                ['write_meta', {'d': {'k': 'y'}}, None, 'omitted']]
 
     def _rt(self, c):
         import streamlib as sl
